@@ -8,6 +8,7 @@ import (
 	"reflect"
 	"strings"
 	"sync"
+	"sync/atomic"
 
 	"gorm.io/gorm/clause"
 	"gorm.io/gorm/logger"
@@ -55,6 +56,7 @@ type Schema struct {
 	AfterFind                 bool
 	err                       error
 	initialized               chan struct{}
+	relatedInitialized        uint32 // 1 once every schema reachable through relationships is initialized
 	namer                     Namer
 	cacheStore                *sync.Map
 }
@@ -120,6 +122,47 @@ func Parse(dest interface{}, cacheStore *sync.Map, namer Namer) (*Schema, error)
 
 // ParseWithSpecialTableName get data type from dialector with extra schema table
 func ParseWithSpecialTableName(dest interface{}, cacheStore *sync.Map, namer Namer, specialTableName string) (*Schema, error) {
+	schema, err := parseWithSpecialTableName(dest, cacheStore, namer, specialTableName)
+	if err == nil && schema != nil {
+		// a schema reached through a relationship is taken from the cache without
+		// waiting (the parsing goroutine itself may be initializing it further up
+		// the stack), so another goroutine may still be filling in its clauses and
+		// relationships: wait for those here, where no parse of ours is in progress
+		schema.waitForRelated()
+	}
+	return schema, err
+}
+
+// waitForRelated waits until every schema reachable through relationships is initialized
+func (schema *Schema) waitForRelated() {
+	if atomic.LoadUint32(&schema.relatedInitialized) == 1 {
+		return
+	}
+
+	seen := map[*Schema]struct{}{schema: {}}
+	for queue := []*Schema{schema}; len(queue) > 0; queue = queue[1:] {
+		s := queue[0]
+		if s.initialized != nil {
+			<-s.initialized
+		}
+
+		s.Relationships.Mux.RLock()
+		for _, rel := range s.Relationships.Relations {
+			for _, related := range []*Schema{rel.FieldSchema, rel.JoinTable} {
+				if related != nil {
+					if _, ok := seen[related]; !ok {
+						seen[related] = struct{}{}
+						queue = append(queue, related)
+					}
+				}
+			}
+		}
+		s.Relationships.Mux.RUnlock()
+	}
+	atomic.StoreUint32(&schema.relatedInitialized, 1)
+}
+
+func parseWithSpecialTableName(dest interface{}, cacheStore *sync.Map, namer Namer, specialTableName string) (*Schema, error) {
 	if dest == nil {
 		return nil, fmt.Errorf("%w: %+v", ErrUnsupportedDataType, dest)
 	}
@@ -420,5 +463,5 @@ func getOrParse(dest interface{}, cacheStore *sync.Map, namer Namer) (*Schema, e
 		return v.(*Schema), nil
 	}
 
-	return Parse(dest, cacheStore, namer)
+	return parseWithSpecialTableName(dest, cacheStore, namer, "")
 }
